@@ -210,11 +210,12 @@ func ferrTerm(err error) string {
 type fobs struct {
 	log  []string
 	out  string
+	cv   string // completion value of the program (the value Run/Eval returns)
 	note string
 }
 
 func (o *fobs) String() string {
-	return "log=[" + strings.Join(o.log, ",") + "] outcome=" + o.out + " " + o.note
+	return "log=[" + strings.Join(o.log, ",") + "] outcome=" + o.out + " completion=" + o.cv + " " + o.note
 }
 
 func runFullRoutes(src string) ([]*fobs, string) {
@@ -271,6 +272,10 @@ func runFullRoutes(src string) ([]*fobs, string) {
 			o.out = "(FThrew " + ferrTerm(out.Err) + ")"
 		default:
 			o.out = "FNormal"
+		}
+		o.cv = "WUndef"
+		if o.out == "FNormal" {
+			o.cv = fvalTerm(out.Val)
 		}
 		res[route] = o
 	}
@@ -358,7 +363,7 @@ func main() {
 			for k, v := range fp.Stats {
 				env.Dist["full:"+k] += v
 			}
-			env.Add(fmt.Sprintf("FCase %s %s %s %s", fp.Coq, Clist(res[0].log), res[0].out, Cbool(diff == "")), txt, "miniJS+", true)
+			env.Add(fmt.Sprintf("FCase %s %s %s %s %s", fp.Coq, Clist(res[0].log), res[0].out, res[0].cv, Cbool(diff == "")), txt, "miniJS+", true)
 			continue
 		}
 		var p minijs.Program
